@@ -164,6 +164,16 @@ def aside_cnt(v):
     raise Refuse(f"aside list {v!r}")
 
 
+def uffm_params(src):
+    """parameters of update_file_futures_and_memory as the code has them (`loaded` exists after fix for the stale-load defect)"""
+    fn = src.find(F + 'update_file_futures_and_memory')
+    names = [a.arg for a in fn.args.args] if fn is not None else []
+    d = dict(file_name=FKey, memory_usage=Int)
+    if 'loaded' in names:
+        d['loaded'] = Bool
+    return d
+
+
 def build(reg, src):
     from contracts import c16_tables
     reg.extra_checks.append(c16_tables.table_merge_check)
@@ -304,11 +314,13 @@ def build(reg, src):
             z3.Implies(z3.And(sel(a0['dom'], g), z3.Or(sel(a0['writing'], g), sel(a0['cnt'], g) == 0)), sel(a1['dom'], g)),
             sel(a1['cnt'], g) <= sel(a0['cnt'], g)))))
 
-    reg.fn(F + 'update_file_futures_and_memory', params=dict(file_name=FKey, memory_usage=Int), setup=setup, returns=None, raises=[],
+    reg.fn(F + 'update_file_futures_and_memory', params=uffm_params(src), setup=setup, returns=None, raises=[],
            requires=[not_held, lambda s: W(s.st, s.self),
                      lambda s: VBool(z3.And(sel(A(s.st, s.self)['dom'], s.file_name.t), z3.Not(sel(A(s.st, s.self)['counted'], s.file_name.t)),
                                             z3.Or(sel(A(s.st, s.self)['writing'], s.file_name.t), sel(A(s.st, s.self)['cnt'], s.file_name.t) == 0))),
-                     lambda s: And(s.memory_usage >= 0, s.memory_usage <= VInt(A(s.st, s.self)['max']))],
+                     lambda s: And(s.memory_usage >= 0, s.memory_usage <= VInt(A(s.st, s.self)['max'])),
+                     # single client: a load task never finds a pending WRITE of its file (the client that would submit it is waiting for the load)
+                     lambda s: Implies(s.loaded, VBool(z3.Not(sel(A(s.st, s.self)['writing'], s.file_name.t)))) if s.has('loaded') else VBool(True)],
            modifies=lambda eng, st, s: havoc_table(st, s.self),
            ensures=uffm_posts())
 
